@@ -102,6 +102,7 @@ pub fn reset(switch_rate: u32) {
     g.hash = 0;
     g.switch_rate = switch_rate;
     g.capped = false;
+    INTERN_CALLS.store(0, std::sync::atomic::Ordering::SeqCst);
     g.probe_failed.clear();
     g.sites.clear();
     g.last_change = Instant::now();
@@ -274,7 +275,7 @@ fn sched_point(site: &'static str, addr: usize, probe: &dyn Fn() -> bool) {
     }
     // a preemption opportunity before the acquisition (not at the very hot sites: there the lock is
     // only probed, which keeps the number of decisions per run useful)
-    if site != "intern.gc" {
+    if site != "intern.gc" || INTERN_CALLS.fetch_add(1, std::sync::atomic::Ordering::SeqCst) % 8 == 7 {
         reschedule(me, St::Runnable, site);
     }
     loop {
@@ -422,6 +423,8 @@ pub fn run_all() -> bool {
 /// The workload hands values owned by an ancestor thread to descendants running on other logical
 /// threads while the ancestor itself runs (classification of the recorded lock order inversion)
 pub static ANCESTOR_HANDLES: std::sync::atomic::AtomicBool = std::sync::atomic::AtomicBool::new(false);
+/// `intern.gc` is by far the hottest site: only every 8th visit is a preemption opportunity
+static INTERN_CALLS: std::sync::atomic::AtomicU64 = std::sync::atomic::AtomicU64::new(0);
 pub static INLINE_SPAWN: std::sync::atomic::AtomicBool = std::sync::atomic::AtomicBool::new(false);
 
 /// `futures::task::Spawn` seam: spawned futures become logical threads
